@@ -188,27 +188,36 @@ class FeatureStructure:
                     current_dereferenced.content[feature] = FeatureStructure()
                 current_dereferenced.content[feature].unify(other_dereferenced.content[feature])
 
-    def subsumes(self, other: "FeatureStructure"):
+    def subsumes(self, other: "FeatureStructure", already_matched=None):
         """Check whether the current feature structure subsumes another one.
 
         Parameters
         ----------
         other : :class:`~pyformlang.fcfg.FeatureStructure`
             The other feature structure to unify.
+        already_matched : dict
+            The nodes of the current structure already matched with a node of the other one. For internal usage.
 
         Returns
         ----------
         subsumes : bool
             Whether the current feature structure subsumes the one.
         """
+        if already_matched is None:
+            already_matched = {}
         current_dereferenced = self.get_dereferenced()
         other_dereferenced = other.get_dereferenced()
+        if current_dereferenced in already_matched:
+            # Two paths sharing a value here must also share it in the other structure
+            return already_matched[current_dereferenced] is other_dereferenced
+        already_matched[current_dereferenced] = other_dereferenced
         if current_dereferenced.value != other_dereferenced.value:
             return False
         for feature in current_dereferenced.content:
             if feature not in other_dereferenced.content:
                 return False
-            if not current_dereferenced.content[feature].subsumes(other_dereferenced.content[feature]):
+            if not current_dereferenced.content[feature].subsumes(other_dereferenced.content[feature],
+                                                                  already_matched):
                 return False
         return True
 
